@@ -60,12 +60,15 @@ Proof.
   intros lo n x H. unfold zrange in H. apply in_map_iff in H. destruct H as [k [<- Hk]]. apply in_seq in Hk. lia.
 Qed.
 
+Lemma basic_code_cases : forall c, basic_code c = 0 \/ In (basic_code c) (zrange 32 95).
+Proof. intros c. exact (hd_filter_in (fun c0 => basic_608 c0 =? c) (zrange 32 95)). Qed.
+
 Lemma basic_code_range : forall c, is_basic c = true -> 32 <= basic_code c <= 126 /\ basic_608 (basic_code c) = c.
 Proof.
   intros c H. unfold is_basic in H.
   apply andb_true_iff in H. destruct H as [H H3]. apply andb_true_iff in H. destruct H as [H1 _].
   apply Z.eqb_eq in H1. apply Z.leb_le in H3. split; [|exact H1]. split; [exact H3|].
-  unfold basic_code in *. destruct (hd_filter_in (fun c0 => basic_608 c0 =? c) (zrange 32 95)) as [E|E].
+  destruct (basic_code_cases c) as [E|E].
   - rewrite E in H3. lia.
   - apply zrange_bounds in E. lia.
 Qed.
